@@ -504,3 +504,8 @@ Proof. reflexivity. Qed.
 Lemma src_bt_getRootLength_ok : Gen_C07.src_bt_getRootLength =
   "{ if v0.root == nil { return 0 } return v0.root.length() }".
 Proof. reflexivity. Qed.
+
+(* server/core/basic_cluster.go: (BasicCluster).PutRegion, body -- the driver puts regions through it; on the observations of C07 it is RegionsInfo.SetRegion (the term is not observed) *)
+Lemma src_bc_PutRegion_ok : src_bc_PutRegion =
+  "{ v0.Lock() defer v0.Unlock() if v1.term == 0 { if v2 := v0.Regions.GetRegion(v1.GetID()); v2 != nil { v1.term = v2.term } } return v0.Regions.SetRegion(v1) }".
+Proof. reflexivity. Qed.
